@@ -67,6 +67,7 @@ def oracle(et, group, status, obs, merged, onto, rep):
         elif s in ('min', 'max'):
             ext = (min if s == 'min' else max)(key(v) for v in allv) if allv else None
             if len(got) != (1 if allv else 0) or (allv and (not got <= set(allv) or key(list(got)[0]) != ext)):
+                # the statement only asks for AN extreme under the data type's ordering
                 fails.append(('strategy/%s-extreme/' % s + sig, '%s: got %r from %r' % (n, sorted(got), allv)))
         elif s == 'replace':
             top = max(version_of(et, e) for e in group)
